@@ -137,6 +137,13 @@ def leaves_problems(part, rng, npoints=120):
     return bad, len(L)
 
 
+def _is_int(v):
+    try:
+        return int(v) == v and not isinstance(v, bool)
+    except (TypeError, ValueError, OverflowError):
+        return False
+
+
 def tree_problems(part):
     """C03 walker; returns list of (predicate, detail)"""
     bad = []
@@ -155,7 +162,9 @@ def tree_problems(part):
             listed[id(x)] = x
             if x.get_depth() != h:
                 bad.append(("C03:cell_listed_at_wrong_level", {"depth": x.get_depth(), "level": h}))
-            lab = (x.get_depth(), x.get_index())
+            lab = (int(x.get_depth()), int(x.get_index()) if _is_int(x.get_index()) else repr(x.get_index()))
+            if _is_int(x.get_index()) and not (1 <= int(x.get_index())):
+                bad.append(("C03:index_label_out_of_range", {"depth": h, "index": int(x.get_index())}))
             if lab in labels:
                 bad.append(("C03:duplicate_depth_index_label", {"label": lab}))
             labels.add(lab)
@@ -184,7 +193,8 @@ def tree_problems(part):
                 continue
             if c.get_depth() != x.get_depth() + 1:
                 bad.append(("C03:child_depth_is_not_parent_depth_plus_one", {"child": c.get_depth()}))
-            if c.get_index() != K * (x.get_index() - 1) + 1 + j:
+            # exact (Python int) arithmetic: fixed-width integer labels would wrap around in deep trees
+            if not _is_int(c.get_index()) or int(c.get_index()) != K * (int(x.get_index()) - 1) + 1 + j:
                 bad.append(("C03:child_index_not_consecutive", {"parent_index": x.get_index(), "position": j,
                                                                 "index": c.get_index(), "K": K}))
             stack.append(c)
@@ -324,8 +334,18 @@ def hostile_box(rng, dim):
     box = []
     for _ in range(dim):
         lo = float(rng.choice(HOSTILE_MAGS)) * (1 if rng.random() < .5 else float(rng.random()))
-        kind = int(rng.integers(7))
-        if kind == 0:
+        kind = int(rng.integers(9))
+        if kind == 7:
+            # subnormal grid: both ends are small multiples of 5e-324 (children a few units wide after one split)
+            lo = 5e-324 * float(rng.integers(0, 60)) * float(rng.choice([1, -1]))
+            hi = lo + 5e-324 * float(rng.integers(2, 400))
+        elif kind == 8:
+            # ulp grid around a normal number: the box is a few hundred ulps wide
+            lo = float(rng.choice([1.0, -3.7, 1e16, 0.1, 1e-300]))
+            hi = lo
+            for _ in range(int(rng.integers(2, 300))):
+                hi = float(np.nextafter(hi, np.inf))
+        elif kind == 0:
             hi = float(np.nextafter(lo, np.inf))  # adjacent floats
         elif kind == 1:
             hi = lo + (abs(lo) * 1e-15 if lo else 5e-324) * float(rng.integers(1, 9))
@@ -348,6 +368,7 @@ def run_partition_case(case, prop):
     np.random.seed(case["np_seed"])
     nsplit = nwalk = 0
     ops = []
+    pars_last = []
 
     def note(pred, det, step):
         if len(viol) < 6:
@@ -370,12 +391,18 @@ def run_partition_case(case, prop):
                     ops.append("deepen")
                     P.deepen()
                 else:
-                    lv = [x for l in P.node_list for x in l if x.children is None]
-                    x = lv[int(rng.integers(len(lv)))]
+                    if case.get("chain") and pars_last:
+                        # a single deep path: split a child of the cell split last
+                        kids = pars_last[-1].children
+                        x = kids[-1] if case["chain"] == "last" else kids[int(rng.integers(len(kids)))]
+                    else:
+                        lv = [x for l in P.node_list for x in l if x.children is None]
+                        x = lv[int(rng.integers(len(lv)))]
                     nl = x.depth >= P.depth
                     ops.append("split(%d,%d,%s)" % (x.depth, x.index, "new" if nl else "old"))
                     P.make_children(x, newlayer=nl)
                     pars = [x]
+                    pars_last = [x]
             except ContractBroken:
                 src = _contract_state.get("last_inv") if prop == "C03" else _contract_state.get("last")
                 for pred, det in src or [("%s:contract_broken" % prop, {})]:
